@@ -1,1 +1,50 @@
-fn main() { lsmv::hello(); }
+use std::path::Path;
+
+fn usage() -> ! {
+    eprintln!("usage: lsmv check <ID> <quick|thorough> | lsmv replay <ID> <file>");
+    std::process::exit(2);
+}
+
+fn main() {
+    let args: Vec<String> = std::env::args().collect();
+    if args.len() < 2 {
+        usage();
+    }
+    let seed: u64 = std::env::var("VERIF_SEED")
+        .ok()
+        .and_then(|s| s.parse().ok())
+        .unwrap_or(1);
+    lsmv::runner::install_panic_hook();
+    let code = match args[1].as_str() {
+        "check" => {
+            if args.len() < 4 {
+                usage();
+            }
+            let id = args[2].as_str();
+            let tier = args[3].as_str();
+            match lsmv::props::spec(id) {
+                Some(spec) => lsmv::runner::run_history_check(&spec, tier, seed),
+                None => {
+                    eprintln!("unknown property {id}");
+                    2
+                }
+            }
+        }
+        "replay" => {
+            if args.len() < 4 {
+                usage();
+            }
+            let id = args[2].as_str();
+            match lsmv::props::spec(id) {
+                Some(spec) => lsmv::runner::replay_history(&spec, Path::new(&args[3])),
+                None => {
+                    eprintln!("unknown property {id}");
+                    2
+                }
+            }
+        }
+        _ => usage(),
+    };
+    lsmv::util::rm_rf(&lsmv::util::scratch_root());
+    std::process::exit(code);
+}
